@@ -74,6 +74,24 @@ fn mask_str(m: &[bool]) -> String {
     m.iter().map(|b| if *b { 'b' } else { 'f' }).collect()
 }
 
+/// the const-generic `&[u8; N]` form of a conversion, for every length up to 12 (`N` is a compile-time
+/// constant: each length is its own instantiation)
+macro_rules! via_array {
+    ($s:expr, $a:ident => $e:expr) => {{
+        let sl: &[u8] = $s;
+        macro_rules! arm {
+            ($n:literal) => {
+                <&[u8; $n]>::try_from(sl).ok().map(|$a| $e)
+            };
+        }
+        match sl.len() {
+            0 => arm!(0), 1 => arm!(1), 2 => arm!(2), 3 => arm!(3), 4 => arm!(4), 5 => arm!(5), 6 => arm!(6),
+            7 => arm!(7), 8 => arm!(8), 9 => arm!(9), 10 => arm!(10), 11 => arm!(11), 12 => arm!(12),
+            _ => None,
+        }
+    }};
+}
+
 pub fn c01(ctx: &mut Ctx, tier: &str, seed: u64) {
     let dom = dom_unix(tier, seed);
     let mut rng = Rng::new(seed ^ 0xa1);
@@ -127,7 +145,7 @@ pub fn c01(ctx: &mut Ctx, tier: &str, seed: u64) {
             let want = if fwd.len() == 1 { Some(fwd[0].clone()) } else { None };
             let r = UnixComponent::try_from(s.as_slice()).ok().map(|c| sc_u(&c));
             let r2 = std::str::from_utf8(s).ok().map(|st| UnixComponent::try_from(st).ok().map(|c| sc_u(&c)));
-            let r3 = <&[u8; 2]>::try_from(s.as_slice()).ok().map(|a| UnixComponent::try_from(a).ok().map(|c| sc_u(&c)));
+            let r3 = via_array!(s.as_slice(), a => UnixComponent::try_from(a).ok().map(|c| sc_u(&c)));
             if r != want || r2.map_or(false, |x| x != want) || r3.map_or(false, |x| x != want) {
                 ctx.fail("component-try-from", None, format!("comps u {}", hex(s)), format!("{:?}", r));
             }
@@ -151,6 +169,13 @@ pub fn c01(ctx: &mut Ctx, tier: &str, seed: u64) {
             giants.push(g);
         }
         giants.push(std::iter::repeat(b'/').take(n).collect());
+        // GIANT names (a scan limited to so many bytes, a length kept in 24 bits …)
+        for m in giant_sizes() {
+            let name: Vec<u8> = (0..m).map(|k| b'a' + (k % 26) as u8).collect();
+            giants.push([&name[..], b"/b"].concat());
+            giants.push([b"/x/", &name[..], b"/y"].concat());
+            giants.push([b"a/", &name[..]].concat());
+        }
         let mut g = b"/x/".to_vec();
         for _ in 0..(n / 2 + 3) {
             g.extend_from_slice(b"./");
@@ -310,7 +335,7 @@ pub fn c02(ctx: &mut Ctx, tier: &str, seed: u64) {
             let want_c = if d.comps.len() == 1 { Some(d.comps[0].clone()) } else { None };
             let rc = WindowsComponent::try_from(s.as_slice()).ok().map(|c| sc_w(&c));
             let rc2 = std::str::from_utf8(s).ok().map(|st| WindowsComponent::try_from(st).ok().map(|c| sc_w(&c)));
-            let rc3 = <&[u8; 2]>::try_from(s.as_slice()).ok().map(|a| WindowsComponent::try_from(a).ok().map(|c| sc_w(&c)));
+            let rc3 = via_array!(s.as_slice(), a => WindowsComponent::try_from(a).ok().map(|c| sc_w(&c)));
             if rc != want_c || rc2.map_or(false, |x| x != want_c) || rc3.map_or(false, |x| x != want_c) {
                 ctx.fail("component-try-from", None, rp.clone(), format!("{:?} want {:?}", rc, want_c));
             }
@@ -320,10 +345,10 @@ pub fn c02(ctx: &mut Ctx, tier: &str, seed: u64) {
             };
             let rk = WindowsPrefix::try_from(s.as_slice()).ok().map(|x| kind_of(&x));
             let rk2 = std::str::from_utf8(s).ok().map(|st| WindowsPrefix::try_from(st).ok().map(|x| kind_of(&x)));
-            let rk3 = <&[u8; 2]>::try_from(s.as_slice()).ok().map(|a| WindowsPrefix::try_from(a).ok().map(|x| kind_of(&x)));
+            let rk3 = via_array!(s.as_slice(), a => WindowsPrefix::try_from(a).ok().map(|x| kind_of(&x)));
             let rp1 = typed_path::WindowsPrefixComponent::try_from(s.as_slice()).ok().map(|x| (kind_of(&x.kind()), x.as_bytes().to_vec()));
             let rp2 = std::str::from_utf8(s).ok().map(|st| typed_path::WindowsPrefixComponent::try_from(st).ok().map(|x| (kind_of(&x.kind()), x.as_bytes().to_vec())));
-            let rp3 = <&[u8; 2]>::try_from(s.as_slice()).ok().map(|a| typed_path::WindowsPrefixComponent::try_from(a).ok().map(|x| (kind_of(&x.kind()), x.as_bytes().to_vec())));
+            let rp3 = via_array!(s.as_slice(), a => typed_path::WindowsPrefixComponent::try_from(a).ok().map(|x| (kind_of(&x.kind()), x.as_bytes().to_vec())));
             let want_p = want_k.clone().map(|k| (k, s.clone()));
             if rk != want_k || rk2.map_or(false, |x| x != want_k) || rk3.map_or(false, |x| x != want_k)
                 || rp1 != want_p || rp2.map_or(false, |x| x != want_p) || rp3.map_or(false, |x| x != want_p) {
@@ -339,6 +364,13 @@ pub fn c02(ctx: &mut Ctx, tier: &str, seed: u64) {
             g.extend(std::iter::repeat(b'\\').take(n));
             g.push(b'b');
             giants.push(g);
+        }
+        for m in giant_sizes() {
+            let name: Vec<u8> = (0..m).map(|k| b'a' + (k % 26) as u8).collect();
+            giants.push([&name[..], br"\b"].concat());
+            giants.push([br"C:\x\", &name[..], b"/y"].concat());
+            giants.push([br"\\?\C:\", &name[..]].concat());
+            giants.push([br"\\", &name[..], br"\share\a"].concat());
         }
         let mut g = br"C:\x\".to_vec();
         for _ in 0..(n / 2 + 3) {
